@@ -108,6 +108,10 @@ pub fn prop() -> HistProp {
     w.vcfg = 2;
     w.rewire = 2;
     w.intruder = 2;
+    // liquidations by several different callers in one history (who is paid is what this property is about)
+    w.liq_weakest = 16;
+    w.liquidate = 6;
+    w.squeeze = 12;
     HistProp {
         id: "C03",
         level: "exploration",
@@ -115,7 +119,7 @@ pub fn prop() -> HistProp {
         weights: w,
         min_ops: 4,
         max_ops: (40, 100),
-        cases: (12_000, 400_000),
+        cases: (20_000, 400_000),
         make: || Box::new(Mon::default()),
         rule: "generated deployments (cw20 6/9 decimals and native, fees, ratios, small and large insurance fund) and engine histories as in C02 plus configuration updates. Balances of all known accounts (5 traders, liquidator, stranger, owner, pauser, engine, insurance fund, fee pool, every vAMM, every oracle) are read before and after each transaction: (i) the total is unchanged, (ii) for margin-engine transactions only the sender, the engine, the insurance fund and the fee pool may change, (iii) a trader liquidated by someone else has an unchanged balance. Non-trivial: a history whose successful transactions show at least 3 distinct transfer shapes (trader->vault, vault->trader, ->fund, ->fee pool, fund->vault, vault->liquidator) and contain a liquidation or a reversal. Distinct by digest of (cfg, ops).",
         assumptions: &["the set of known accounts is closed: no contract of the deployment pays an address outside it (checked: a transfer to an unknown address would break clause (i))"],
